@@ -72,6 +72,8 @@ type a2spec struct {
 	DupCreator  bool
 	MainTail    []byte            // extra bytes appended to the main packet body (e.g. a partial id)
 	IndexRecv   bool              // put a recovery packet into the index file
+	DupVolN     int               // > 0: a further recovery file - named to be listed first (DupVolLast false) or last - repeats exponent 0 with DupVolN-1 bytes of data
+	DupVolLast  bool
 	IndexRecvN  int               // > 0: that packet carries exponent 0 and IndexRecvN-1 bytes of data (and no volume file has exponent 0)
 	Reseal      bool              // recompute the set id from the (mutated) main body; else keep the original id
 	LenOverride map[string]uint64 // packet kind -> header length field value
@@ -335,6 +337,14 @@ func init() {
 	add("main.ids.partial-id-appended", func(a *a2spec) { a.MainTail = []byte{1, 2, 3, 4} })
 	add("main.ids.partial-id-appended-12", func(a *a2spec) { a.MainTail = []byte{1, 2, 3, 4, 5, 6, 7, 8, 9, 10, 11, 12} })
 	add("index.contains-recovery-packet", func(a *a2spec) { a.IndexRecv = true })
+	// a second copy of block 0 in a recovery file of its own, of the wrong size, listed before / after the file with the
+	// good copy (whatever is checked on a recovery packet is checked on every copy of it)
+	for _, n := range []int{0, 12, 64} { // never the slice size of a set here (4 / 8): the oracle knows nothing of this copy
+		for _, last := range []bool{false, true} {
+			n, last := n, last
+			add(fmt.Sprintf("dupvol.recv[0].size=%d.last=%v", n, last), func(a *a2spec) { a.DupVolN, a.DupVolLast = n+1, last })
+		}
+	}
 	// ... whose block is shorter / longer than the slice size (every check made on recovery packets of volume files
 	// has to be made on this one, too, if it is accepted at all)
 	for _, n := range []int{0, 4, 12, 64} {
@@ -951,6 +961,14 @@ func c19RunP2(c *c19Case, r *core.Rec) {
 	}
 	fs.Put("/d/s.vol0+2.par2", vol1Spec.volumeRange(0, 2))
 	fs.Put("/d/s.vol2+3.par2", volSpec.volumeRange(2, 5))
+	if volSpec.DupVolN > 0 {
+		body := make([]byte, 4+volSpec.DupVolN-1) // exponent 0, then the (wrong-size) block
+		name := "/d/s.a-dup.par2"
+		if volSpec.DupVolLast {
+			name = "/d/s.z-dup.par2"
+		}
+		fs.Put(name, rpar2.Join(append(volSpec.core(), volSpec.frame("recv", rpar2.TypeRecv, body))...))
+	}
 	for i, n := range names {
 		fs.Put("/d/"+n, datas[i])
 	}
